@@ -48,6 +48,9 @@ type verifSrc struct {
 	seg   int
 	final error
 	reads int
+	// finalWithData: the Read that delivers the last octets returns the final
+	// error together with them
+	finalWithData bool
 }
 
 func (s *verifSrc) Read(b []byte) (int, error) {
@@ -64,6 +67,9 @@ func (s *verifSrc) Read(b []byte) (int, error) {
 	}
 	copy(b, s.data[s.pos:s.pos+n])
 	s.pos += n
+	if s.finalWithData && s.pos >= len(s.data) {
+		return n, s.final
+	}
 	return n, nil
 }
 
@@ -82,7 +88,7 @@ func verif_C01_stream() {
 	// backend behind a fast network sees)
 	seg := verifChoice(3)
 	bufsz := []int{1, 2, 3, L + 2}[verifChoice(4)]
-	src := &verifSrc{data: stream, seg: seg, final: io.EOF}
+	src := &verifSrc{data: stream, seg: seg, final: io.EOF, finalWithData: nondetBool()}
 	br := bufio.NewReader(src)
 	dr := &dataReader{r: br}
 	got := []byte{}
